@@ -43,6 +43,9 @@ def run(prog, chk):
     chk.rule(C10.retry_progress, prog, chk)  # a template in a <specs> block written after its <reuse> is found on the retry: every success counts as progress
     chk.rule(_C15.stack_writers, prog, chk)
     chk.rule(_C15.innermost_writes, prog, chk)  # what a template's <var> assigns stays in the instance's scope (it does not reach out into an enclosing definition)
+    from props import C17 as _C17b
+    chk.rule(_C17b.scope_var_limit, prog, chk)  # a reuse attribute of exactly var-limit characters is accepted as the hand-written element would be
+    chk.rule(_C17b.limit_predicates, prog, chk)
 
 
 def template_source(prog, chk):
